@@ -5,7 +5,7 @@ FUNCS = [A + "application.py:Application.start/join/cancel/get_app_state/require
          A + "localapp.py:LocalApp.run/join/is_finished/evaluate/clean_up + setters/getters",
          A + "msaapp.py:MSAApp.run/evaluate/clean_up/get_alignment/get_alignment_order"]
 STUBS = ["subprocess.Popen in biotite.application.localapp -> FakePopen: launch failure / hang / exit code / output "
-         "(correct in any of the 6 orders, garbage, empty) are z3 variables the explorer forks on",
+         "(correct in any of the 6 orders, garbage, empty, output files removed by the program itself; failing with code 1, a signal or 255, before or after writing complete output) are z3 variables the explorer forks on",
          "get_version() of the MUSCLE wrappers -> constant", "join() without timeout on a hanging program is skipped (would block)"]
 
 
